@@ -111,6 +111,7 @@ class Cfg:
         self.ignored = 0
         self.capped = False
         self.ntrans = 0         # state-level transitions
+        self.loop_exits_no_label = 0   # Break / Continue(label=None) outside of every loop (static)
         self._scopes_at = None
 
     def scopes_at(self):
@@ -166,6 +167,12 @@ def static_check(fc, cfg: Cfg):
                     f"v2:loop-exit-unresolved:{type(e).__name__}",
                     f"flow `{fc.id}`: {type(e).__name__} at {i} lies inside a while loop but has no target label",
                     {"pos": i}))
+            else:
+                # `break` / `continue` outside of every loop: the statement names no loop exit, `slide` steps over
+                # it (`if element.label is None: head.position += 1`) - no target, hence nothing that could point
+                # outside the flow; the successor p+1 is an edge of the graph like any other (counted, and bound
+                # to the interpreter by the edge family of c12.py)
+                cfg.loop_exits_no_label += 1
         for r in refs:
             if r not in labels:
                 pr.append(Problem(
